@@ -83,7 +83,7 @@ var leafOps = []string{"new", "new", "new", "goerr", "goerr", "sentinel", "deadl
 
 var wrapOps = []string{"wrap", "wrap", "wrap", "withmessage", "withstack", "hint", "detail", "issuelink", "telemetry",
 	"domain", "tags", "assertion", "safedetails", "http", "grpc", "pkgwithmessage", "pkgwithstack", "patherr",
-	"linkerr", "syscallerr", "fmterrorf", "uwrap", "mark", "secondary", "combine", "handled", "handled",
+	"linkerr", "syscallerr", "fmterrorf", "uwrap", "mark", "secondary", "combine", "handled", "handled", "handledindomain",
 	"handleasassertion", "newassertionwrapped"}
 
 var multiOps = []string{"join", "joinraw", "stdjoin", "fmterrorfs", "umulti"}
@@ -208,6 +208,15 @@ func (g *Gen) WrapOp(op string, kid *R, depth int) *R {
 			r.Arg = &a
 		}
 		return r
+	case "handledindomain":
+		// In[0] = domain (the same small pool as WithDomain, so that the hidden error is often
+		// already in the requested domain; NoDomain included), NIn[0]: 0 = HandledInDomain,
+		// 1 = HandledInDomainWithMessage(In[1])
+		dom := g.rng.Pick(append([]string{"error domain: <none>"}, domainsPool...))
+		if g.rng.Bool() {
+			return g.node(op, []string{dom, g.word()}, []int{1}, kid)
+		}
+		return g.node(op, []string{dom}, []int{0}, kid)
 	case "handleasassertion":
 		return g.node(op, nil, nil, kid)
 	case "newassertionwrapped":
